@@ -398,6 +398,27 @@ func c09run(c M) M {
 	_, streq := c["plain"]
 	mk, _ := c09make(c, tree, o)
 	c09observe(o, mk, valuer, env, !timeFam || streq, true)
+	if timeFam && obj(c["vt"]) == nil && len(env.s1) > 0 {
+		// staged: first only the clock is known (the variables stay), then everything.  The partially reduced tree is
+		// an input of the second call: it must come out unchanged, and the staged result must be the direct one.
+		if nv, err := c09value(M{"t": "time", "v": c["now"]}); err == nil {
+			if e, err := mk(); err == nil {
+				st := M{}
+				if p := guard(func() {
+					part := influxql.Reduce(e, &influxql.NowValuer{Now: nv.(time.Time)})
+					st["part"] = c09proj(part)
+					full := influxql.Reduce(part, valuer)
+					st["full"] = c09proj(full)
+					st["part_after"] = c09proj(part)
+					influxql.Reduce(part, valuer)
+					st["part_after2"] = c09proj(part)
+				}); p != "" {
+					st["panic"] = p
+				}
+				o["staged"] = st
+			}
+		}
+	}
 	if alts := list(c["alts"]); len(alts) > 0 {
 		ao := M{}
 		for _, a := range alts {
@@ -461,6 +482,9 @@ func c09observe(o M, mk func() (influxql.Expr, error), valuer influxql.Valuer, e
 			return
 		}
 		o["red2"] = c09proj(red2)
+		// the trees handed to Reduce are inputs: they must come out as they went in
+		o["red_after"] = c09proj(red)
+		o["in_after"] = c09proj(e1)
 	}
 	if eval {
 		var v1 interface{}
